@@ -63,6 +63,12 @@ pub fn separate_bytes(val: i16) -> (r: (u8, u8))
 // one entry per print!/println! executed: `entries` = the argument values in order,
 // `lits` = index K of the format literal (table at the top of the generated file)
 pub tracked struct OutLog { pub ghost entries: Seq<Seq<u64>>, pub ghost lits: Seq<int> }
+// ghost input: the lines still pending on stdin (each including its newline, if any), universally quantified
+pub tracked struct InLog { pub ghost lines: Seq<Seq<u8>> }
+/// the bytes of a String (uninterpreted; tied to as_bytes below)
+pub uninterp spec fn bytes_of(s: String) -> Seq<u8>;
+pub assume_specification [std::string::String::as_bytes] (s: &String) -> (r: &[u8])
+    ensures r@ == bytes_of(*s);
 pub mod verif_io {
     use vstd::prelude::*;
     use super::OutLog;
@@ -106,6 +112,20 @@ pub mod verif_io {
     pub fn out9(Tracked(log): Tracked<&mut OutLog>, k: usize, a0: u64, a1: u64, a2: u64, a3: u64, a4: u64, a5: u64, a6: u64, a7: u64, a8: u64)
         ensures final(log).entries == old(log).entries.push(seq![a0, a1, a2, a3, a4, a5, a6, a7, a8]), final(log).lits == old(log).lits.push(k as int),
     { }
+    // R2: an error object printed with {} has no numeric rendering
+    #[verifier::external_body]
+    pub fn opaque_u64() -> (r: u64) { 0 }
+    // R4: reading a line consumes the first pending line of the ghost input (end of input = nothing read, Ok(0));
+    // a read error changes nothing that is modelled
+    pub struct IoError;
+    #[verifier::external_body]
+    pub fn read_line(Tracked(inp): Tracked<&mut super::InLog>, s: &mut String) -> (r: Result<usize, IoError>)
+        requires old(s)@.len() == 0,
+        ensures
+            r.is_ok() ==> super::bytes_of(*final(s)) == (if old(inp).lines.len() > 0 { old(inp).lines[0] } else { Seq::<u8>::empty() })
+                && final(inp).lines == (if old(inp).lines.len() > 0 { old(inp).lines.drop_first() } else { old(inp).lines }),
+            r.is_err() ==> final(inp).lines == old(inp).lines,
+    { unimplemented!() }
     // R3: format!(..) -- the text of a message is not modelled
     #[verifier::external_body]
     pub fn opaque_string() -> (r: String) { String::new() }
